@@ -8,8 +8,13 @@ import Jrpc.Generated.Facts
     * `nextMessage: NextReader` and `resetReadDeadline: SetReadDeadline` run in the reader goroutine of
       the current generation (started after the swap, so ordered by goroutine creation), or — for
       `resetReadDeadline` called from the main loop's pong case — with `writeLk` taken by the caller;
-    * `setupPings: SetPongHandler / SetPingHandler` run before any goroutine of the connection exists
-      or, on reconnect, with `writeLk` held by the caller.
+    * `setupPings: SetPongHandler / SetPingHandler` and the capture of the connection in a local
+      (`alias`) run before any goroutine of the connection exists or, on reconnect, with `writeLk` held
+      by the caller;
+    * `setupPings.func: alias.WriteControl` — the ping handler answering with a pong — is the one
+      writer outside `writeLk`: gorilla documents WriteControl (and Close) as callable concurrently
+      with all other methods; it is a control frame, not part of the message alphabet of `Jrpc.Locks`,
+      and it uses the connection captured when the handler was installed, never the field `c.conn`.
 -/
 namespace Jrpc.Facts
 
@@ -20,7 +25,9 @@ theorem conn_uses :
       "wsConn.nextWriter: NextWriter locked=true",
       "wsConn.sendRequest: WriteJSON locked=true",
       "wsConn.setupPings: SetPongHandler locked=false",
+      "wsConn.setupPings: alias locked=false",
       "wsConn.setupPings: SetPingHandler locked=false",
+      "wsConn.setupPings.func: alias.WriteControl locked=false",
       "wsConn.setupPings.func: WriteMessage locked=true",
       "wsConn.tryReconnect.func: assign locked=true",
       "wsConn.tryReconnect.func: call setupPings locked=true",
